@@ -39,6 +39,8 @@ def main(argv=None):
             print("ANALYSIS-ERROR property=%s no check is built for this property" % prop)
             return 2
         poly.selftest()
+        from . import regex as _rx
+        _rx.selftest()
         try:
             pkg = Package(args.repo)
         except AnalysisError as e:
